@@ -189,7 +189,12 @@ func (r *rt) RoundTrip(req *http.Request) (*http.Response, error) {
 	mk := func(code int, b *body) *http.Response {
 		return &http.Response{StatusCode: code, Status: strconv.Itoa(code), Header: hdr, Body: b, Request: req, Proto: "HTTP/1.1", ProtoMajor: 1, ProtoMinor: 1, ContentLength: -1}
 	}
-	if !strings.Contains(req.URL.Path, "/blobs/") {
+	if r.c.Store == "ext" {
+		// the registry does not hold the blob; the descriptor names an external location for it
+		if req.URL.Host != "ext.example" {
+			return mk(404, &body{data: []byte("{}"), end: io.EOF}), nil
+		}
+	} else if !strings.Contains(req.URL.Path, "/blobs/") {
 		return mk(404, &body{end: io.EOF}), nil
 	}
 	y := r.served
@@ -331,6 +336,9 @@ func run(t *testing.T, c Case, scratch string) outcome {
 	switch c.Store {
 	case "reg":
 		r, err = ref.New("reg.example/proj/blob:t")
+	case "ext":
+		r, err = ref.New("reg.example/proj/blob:t")
+		d.URLs = []string{"http://ext.example/layers/" + d.Digest.Encoded()}
 	case "inline":
 		r, err = ref.New("reg.example/proj/blob:t")
 		d.Data = x
@@ -633,6 +641,23 @@ func enumerate(thorough bool, emit func(Case)) {
 						}
 					}
 				}
+				// a foreign layer: the registry answers 404, the bytes come from the URL the descriptor carries
+				for _, xf := range xfs {
+					for _, cl := range []string{"right", "absent", "intended"} {
+						for _, dcd := range []string{"", "served"} {
+							for _, rd := range [][]int{{64}, {1, 64}, {1, 2, 3, 64}} {
+								emit(Case{Content: x, Algo: algo, Sized: sized, Store: "ext", Xform: xf, CL: cl, Reads: rd, Mode: "read", DCD: dcd})
+							}
+							emit(Case{Content: x, Algo: algo, Sized: sized, Store: "ext", Xform: xf, CL: cl, Mode: "rawbody", DCD: dcd})
+							emit(Case{Content: x, Algo: algo, Sized: sized, Store: "ext", Xform: xf, CL: cl, Reads: []int{2, 64}, Mode: "rewind@1", DCD: dcd})
+						}
+					}
+					if served := len(xform([]byte(x), xf)); served > 1 {
+						for _, rs := range []string{"correct", "shift+1", "other-bytes", "full-200"} {
+							emit(Case{Content: x, Algo: algo, Sized: sized, Store: "ext", Xform: xf, CL: "right", Reads: []int{1, 64}, Drops: []int{served / 2}, Resume: rs, Mode: "read"})
+						}
+					}
+				}
 				// a descriptor whose stated size differs from the content it names (digest right)
 				if sized {
 					for _, st := range []string{"plus1", "minus1", "half", "double"} {
@@ -721,7 +746,7 @@ func enumerateStructured(emit func(Case)) {
 func TestVerifC01(t *testing.T) {
 	rec := ev.New()
 	defer rec.Flush(t)
-	rec.Rule("case = content (all strings over {a,b} of length 0..4, thorough 0..6, plus one 70-byte string) x digest algorithm x size stated/unknown/stated wrongly (±1, half, double; digest right) x store {registry (scripted transport), OCI layout file, inline data} x served-stream transformation {identity, flip at every offset, truncation at every offset, 1-2 extra bytes, substitution of equal / greater / smaller length} x Content-Length {right, absent, +1, -1, of the intended content} x Docker-Content-Digest header {absent, the digest asked by, the digest of what is served, that digest in the other algorithm} x every composition of read sizes from {1,2,3} (plus large reads and zero-length reads) x EOF with / after the last data x mode {read, RawBody, rewind after k bytes then read}; plus the structured readers on real content (a tar, a gzip-compressed tar, a config JSON; flips at 21 positions incl. header, data, padding and trailer, truncations, extra bytes): BTarReader.RawBody, ReadFile of an absent name, a full walk followed by that search, a look at one file through the tar view followed by a rewind and a raw read of the blob, ToOCIConfig x connection drops at every offset (1, and 2 nearby) x range answer {correct, shifted -1/+1, other bytes, 200 full body, 206 without Content-Range, 416, 500 then correct}. " +
+	rec.Rule("case = content (all strings over {a,b} of length 0..4, thorough 0..6, plus one 70-byte string) x digest algorithm x size stated/unknown/stated wrongly (±1, half, double; digest right) x store {registry (scripted transport), external URL of the descriptor after the registry's 404, OCI layout file, inline data} x served-stream transformation {identity, flip at every offset, truncation at every offset, 1-2 extra bytes, substitution of equal / greater / smaller length} x Content-Length {right, absent, +1, -1, of the intended content} x Docker-Content-Digest header {absent, the digest asked by, the digest of what is served, that digest in the other algorithm} x every composition of read sizes from {1,2,3} (plus large reads and zero-length reads) x EOF with / after the last data x mode {read, RawBody, rewind after k bytes then read}; plus the structured readers on real content (a tar, a gzip-compressed tar, a config JSON; flips at 21 positions incl. header, data, padding and trailer, truncations, extra bytes): BTarReader.RawBody, ReadFile of an absent name, a full walk followed by that search, a look at one file through the tar view followed by a rewind and a raw read of the blob, ToOCIConfig x connection drops at every offset (1, and 2 nearby) x range answer {correct, shifted -1/+1, other bytes, 200 full body, 206 without Content-Range, 416, 500 then correct}. " +
 		"Oracle: a read that ends in io.EOF delivered exactly the intended content (the only string of the alphabet with that digest); an intact stream (with correct resumes) must be readable. distinct_nontrivial = cases whose served stream differs from the intended content or involves a drop")
 	rec.Assume("the scripted transport hands out bodies the way net/http does (never more than Content-Length bytes; early close = unexpected EOF)")
 	rec.Assume("two distinct strings of the enumerated alphabet never share a digest")
